@@ -65,6 +65,11 @@ def main():
         def checker_of(name):
             return typeguard.typechecked if name == "typeguard" else beartype.beartype
 
+        UA, UB = Float[A, "up_"], Float[A, "uq_"]          # two annotation objects used in unions, in both orders
+        ST_PACKED = np.dtype([("a", "u1"), ("b", "u1")])
+        ST_ALIGNED = np.dtype([("a", "u1"), ("b", "u1")], align=True)      # == ST_PACKED, same hash, different str()
+        STCAT = jaxtyping.make_numpy_struct_dtype(ST_PACKED, "PackedRec")
+
         def run_op(o, alias):
             """alias: a fresh annotation object shared between this op and the probe P4"""
             state["fault"] = o.get("fault")
@@ -159,6 +164,12 @@ def main():
                         raiser(state["fault"])
                 walk(2)
                 return True
+            if op == "pytree_union_other_order":
+                # an unrelated passing check of a PyTree whose leaf type is the union of the SAME two annotations in the other order
+                return isinstance((np.zeros((3,), "float32"),), PyTree[typing.Union[UB, UA], "Sother"])
+            if op == "struct_dtype_other_spelling":
+                # an unrelated passing check of an array whose structured dtype is EQUAL to the probe's packed dtype but spelled differently
+                return isinstance(np.zeros((2,), ST_ALIGNED), Shaped[A, "..."])
             if op == "decorate_inside_call":
                 # functions are decorated WHILE a jaxtyped call is active (what the import hook does to every nested def, each time the
                 # outer function runs); their annotations mention a structure name the outer call has not bound: decoration is not a check
@@ -256,6 +267,12 @@ def main():
             out["P3_structured_pytree"] = safe(lambda: isinstance((np.zeros((3,), "float32"),), PyTree[Float[A, "a"], "T"]))
             out["P4_alias_rejects_wrong_dtype"] = safe(lambda: isinstance(np.zeros((3,), "int32"), alias))
             out["P5_alias_rejects_wrong_rank"] = safe(lambda: isinstance(np.zeros((3, 3), "float32"), alias))
+            def p8():
+                with jaxtyped("context"):
+                    r1 = isinstance((np.zeros((3,), "float32"),), PyTree[typing.Union[UA, UB], "Sprobe"])     # first member (axis up_) binds
+                    return [bool(r1), bool(isinstance(np.zeros((4,), "float32"), UA)), bool(isinstance(np.zeros((4,), "float32"), UB))]
+            out["P8_union_members_in_written_order"] = safe(p8)
+            out["P9_struct_dtype_exact_spelling"] = safe(lambda: [bool(isinstance(np.zeros((3,), ST_PACKED), STCAT[A, "n"])), bool(isinstance(np.zeros((3,), ST_ALIGNED), STCAT[A, "n"]))])
             out["P7_early_function_rejects_wrong_dtype"] = safe(lambda: pf((np.zeros((3, 3), "int32"), 1)))
             out["P6_stateless_toplevel"] = safe(lambda: (isinstance(np.zeros((3,), "float32"), Float[A, "n"]), isinstance(np.zeros((4,), "float32"), Float[A, "n"])))
             return out
